@@ -452,7 +452,9 @@ class FlatLinearOperator(ScipyLinearOperator):
                 size = sl.stop - sl.start
                 self.shape = (size, size)
             else:
-                self._mask = np.all(self.leg.to_qflat() == value[np.newaxis, :], axis=1)
+                # `value` is the `qtotal` of the vector, so include `qconj` as in `get_qindex_of_charges`
+                qflat = self.leg.chinfo.make_valid(self.leg.qconj * self.leg.to_qflat())
+                self._mask = np.all(qflat == value[np.newaxis, :], axis=1)
                 self.shape = tuple([np.sum(self._mask)] * 2)
         else:
             if self.compact_flat:
